@@ -2,7 +2,7 @@
     This file contains only the property theorems; each is closed by [exact] of a lemma proved in
     Proofs05*.v and followed by [Print Assumptions].  Models: Model05.v (tables: Gen/*.v, regenerated
     from /repo on every run).  Specs: Spec05.v. *)
-From XV Require Import C05.Spec05 C05.Model05 C05.Proofs05a C05.Proofs05b C05.Proofs05c C05.Proofs05d C05.Proofs05e.
+From XV Require Import C05.Spec05 C05.Model05 C05.Proofs05a C05.Proofs05b C05.Proofs05c C05.Proofs05d C05.Proofs05e C05.Proofs05f.
 From XV Require Import C05.Model05r C05.Proofs05r.
 Local Open Scope N_scope.
 
@@ -63,6 +63,28 @@ Theorem T05_utf8_enc : forall cps maxBytes throw, Forall scalar cps -> cps <> []
 Proof. exact x8_to_complete. Qed.
 Print Assumptions T05_utf8_enc.
 
+(** ... and on EVERY source of 16-bit units the encoder is sound: a result without error is the UTF-8
+    form of the scalar values of a well-formed UTF-16 prefix of the source, and that prefix is what is
+    reported as eaten; unpaired surrogates are reported (defect F7, repaired) *)
+Theorem T05_utf8_enc_sound : forall src maxBytes throw bs n, Forall u16 src ->
+  x8_to src maxBytes throw = Ok (bs, n) ->
+  exists cps, Forall scalar cps /\ firstn n src = flat_map utf16_enc cps /\ bs = flat_map utf8_enc cps.
+Proof. exact x8_to_sound. Qed.
+Print Assumptions T05_utf8_enc_sound.
+
+Theorem T05_utf8_enc_lone_trail : forall u rest maxBytes throw, 0xDC00 <= u <= 0xDFFF -> maxBytes <> O ->
+  x8_to (u :: rest) maxBytes throw = Err E_Trans_BadSrcSeq.
+Proof. exact x8_to_rejects_lone_trail. Qed.
+Print Assumptions T05_utf8_enc_lone_trail.
+
+Theorem T05_utf8_enc_bad_trail : forall u t rest maxBytes throw, 0xD800 <= u <= 0xDBFF -> ~ (0xDC00 <= t <= 0xDFFF) ->
+  maxBytes <> O -> x8_to (u :: t :: rest) maxBytes throw = Err E_Trans_BadTrailingSurrogate.
+Proof. exact x8_to_rejects_bad_trail. Qed.
+Print Assumptions T05_utf8_enc_bad_trail.
+
+Example T05_nonvacuous_enc_sound : x8_to [0x41; 0xD800; 0xDF48; 0x20AC] 16 true = Ok ([0x41; 0xF0; 0x90; 0x8D; 0x88; 0xE2; 0x82; 0xAC], 4%nat).
+Proof. vm_compute. reflexivity. Qed.
+
 Theorem T05_utf8_roundtrip : forall cps maxBytes maxChars throw, Forall scalar cps -> cps <> [] ->
   (length (flat_map utf8_enc cps) <= maxBytes)%nat -> (length (flat_map utf16_enc cps) <= maxChars)%nat ->
   exists bs n sizes, x8_to (flat_map utf16_enc cps) maxBytes throw = Ok (bs, n) /\
@@ -104,6 +126,19 @@ Theorem T05_tables_roundtrip : forall from to sz exc b, In ((from, to, sz), exc)
   xlat_to to sz (tbl from b) = b /\ tab_can to sz (tbl from b) = true.
 Proof. exact tables_byte_roundtrip. Qed.
 Print Assumptions T05_tables_roundtrip.
+
+(** encode side of the tables: a unit that canTranscodeTo accepts is written as a byte that decodes back
+    to the same unit ("encoding yields exactly the legal byte sequence or an unrepresentable-character
+    report"); obligation over the regenerated tables, exception U+0085/IBM1047 = finding F24 *)
+Theorem T05_tables_enc : forallb table_enc_ok (combine all_tables table_to_exceptions) = true.
+Proof. exact all_tables_enc_ok. Qed.
+Print Assumptions T05_tables_enc.
+
+Theorem T05_tables_enc_roundtrip : forall from to sz uexc c,
+  In ((from, to, sz), uexc) (combine all_tables table_to_exceptions) ->
+  tab_can to sz c = true -> ~ In c uexc -> tbl from (xlat_to to sz c) = c.
+Proof. exact tables_enc_roundtrip. Qed.
+Print Assumptions T05_tables_enc_roundtrip.
 
 (** known finding F24, stated on the faithful model: IBM1047 decodes byte 0x15 (NEL) to U+000A *)
 Theorem T05_ibm1047_nel_refuted :
